@@ -418,6 +418,7 @@ def run(chk, runner_ok):
     fixed.grammar_but_two = True
     run_cases(chk, model, [fixed] + cases, "MATCHER-two-starstar", two=True)
     run_source_only(chk, model)
+    ml.run_unbound_empty(chk, model, chk.n(200, 2000))
     run_project(chk, model)
     ml.run_wild_first(chk, model, chk.n(150, 1500))
     run_android_layout(chk, model)
